@@ -11,7 +11,14 @@ package PKG
 func vxBuildGrammar() (*vxG, string, int) {
 	D := vxParam("D")
 	natoms := vxParam("ATOMS")
-	g := vxGen(D, natoms, vxParam("LEAFBIN") == 1)
+	var g *vxG
+	if vxParam("FAM") == 1 {
+		g = vxGenRep()
+	} else if vxParam("FAM") == 2 {
+		g = vxGenChoiceSeq()
+	} else {
+		g = vxGen(D, natoms, vxParam("LEAFBIN") == 1)
+	}
 	bsel := 0
 	if natoms > vxaRefB {
 		bsel = vxConcrete(vxIntRange(0, vxParam("NB")-1))
